@@ -107,6 +107,13 @@ type lcRig struct {
 	changed chan struct{} // pulsed on every recorded event
 
 	gateOn  bool
+	// "slow close" family: the socket of "/" has a disconnecting handler that blocks (the library
+	// waits for those handlers inside the socket's close, i.e. inside the connection's close loop)
+	slowOn      bool
+	slowEntered chan struct{}
+	slowRelease chan struct{}
+	slowEnt1    sync.Once
+	slowRel1    sync.Once
 	gate    chan struct{} // closed = middleware may proceed
 	gateOne sync.Once
 
@@ -123,6 +130,8 @@ func (r *lcRig) pulse() {
 }
 
 func (r *lcRig) release() { r.gateOne.Do(func() { close(r.gate) }) }
+
+func (r *lcRig) releaseSlow() { r.slowRel1.Do(func() { close(r.slowRelease) }) }
 
 func (r *lcRig) fire(c string) {
 	r.mu.Lock()
@@ -165,7 +174,9 @@ func (r *lcRig) waitCond(d time.Duration, cond func() bool) bool {
 }
 
 func newLcRig(sc lcScenario) (*lcRig, error) {
-	r := &lcRig{sc: sc, changed: make(chan struct{}, 1), gate: make(chan struct{})}
+	r := &lcRig{sc: sc, changed: make(chan struct{}, 1), gate: make(chan struct{}),
+		slowEntered: make(chan struct{}), slowRelease: make(chan struct{})}
+	r.slowOn = sc.Phase == "slowclose" || sc.Phase == "slowidle"
 	cfg := &sio.ServerConfig{
 		EIO: eio.ServerConfig{
 			PingInterval:   time.Second,
@@ -186,7 +197,7 @@ func newLcRig(sc lcScenario) (*lcRig, error) {
 	if err := r.io.Run(); err != nil {
 		return nil, err
 	}
-	r.gateOn = sc.Phase == "middleware" || sc.Kind == "cutbyte"
+	r.gateOn = sc.Phase == "middleware" || sc.Phase == "slowclose" || sc.Kind == "cutbyte"
 	for _, name := range []string{"/", "/b"} {
 		name := name
 		nsp := r.io.Of(name)
@@ -246,6 +257,16 @@ func newLcRig(sc lcScenario) (*lcRig, error) {
 				r.mu.Unlock()
 				r.pulse()
 			})
+			if r.slowOn && name == "/" {
+				socket.OnDisconnecting(func(reason sio.Reason) {
+					r.slowEnt1.Do(func() { close(r.slowEntered) })
+					r.pulse()
+					select {
+					case <-r.slowRelease:
+					case <-time.After(7 * time.Second):
+					}
+				})
+			}
 			socket.Join("roomA")
 			socket.OnEvent("c2s", func(i int) {
 				if i == 0 {
@@ -575,6 +596,7 @@ func (r *lcRig) run() (row lcRow) {
 	c := newLcClient(r)
 	defer func() {
 		r.release()
+		r.releaseSlow()
 		go func() { // tear down in the background: ts.Close waits for parked long-polls
 			r.io.Close()
 			c.stop()
@@ -623,7 +645,7 @@ func (r *lcRig) run() (row lcRow) {
 				return fmt.Errorf("middleware not entered")
 			}
 			r.setReached("middleware")
-			if sc.Phase == "middleware" && i == sc.Nsps-1 {
+			if (sc.Phase == "middleware" || sc.Phase == "slowclose") && i == sc.Nsps-1 {
 				return nil
 			}
 			if err := c.waitPacket("40"+nspPrefix(nsp), 1, 6*time.Second); err != nil {
@@ -677,7 +699,7 @@ func (r *lcRig) run() (row lcRow) {
 			c.ws = ws
 			r.setReached("upgraded")
 		}
-		if sc.Phase == "idle" {
+		if sc.Phase == "idle" || sc.Phase == "slowidle" {
 			kctx, kc := context.WithCancel(c.ctx)
 			keepCancel = kc
 			go c.keepAlive(kctx)
@@ -740,7 +762,39 @@ func (r *lcRig) run() (row lcRow) {
 			}()
 		}
 		close(go1)
-		wg.Wait()
+		if r.slowOn {
+			// a server-side cause (Disconnect, Server.Close) is itself parked in the slow handler
+			go wg.Wait()
+			time.Sleep(30 * time.Millisecond)
+		} else {
+			wg.Wait()
+		}
+	}
+
+	if r.slowOn && row.EnvFail == "" {
+		// the close of "/" is parked in its disconnecting handler: now the other namespace's
+		// middleware returns (admission while the connection's close loop is busy), then the handler
+		r.waitCond(9*time.Second, func() bool {
+			select {
+			case <-r.slowEntered:
+				return true
+			default:
+				return false
+			}
+		})
+		r.release()
+		r.waitCond(3*time.Second, func() bool {
+			r.mu.Lock()
+			defer r.mu.Unlock()
+			for _, s := range r.socks {
+				if !s.mwExit || !s.connected {
+					return false
+				}
+			}
+			return true
+		})
+		time.Sleep(100 * time.Millisecond)
+		r.releaseSlow()
 	}
 
 	connLevel := false
@@ -753,7 +807,15 @@ func (r *lcRig) run() (row lcRow) {
 	r.mu.Unlock()
 	if row.EnvFail == "" && !connLevel {
 		// namespace-only end: wait for its report, then the client ends the connection cleanly
-		r.waitCond(6*time.Second, func() bool { return r.allReported(false) })
+		r.waitCond(6*time.Second, func() bool {
+			s := r.find("/")
+			if s == nil {
+				return true
+			}
+			r.mu.Lock()
+			defer r.mu.Unlock()
+			return !s.connected || len(s.discM) > 0
+		})
 		keepCancel()
 		time.Sleep(30 * time.Millisecond)
 		c.mu.Lock()
@@ -930,6 +992,15 @@ func lcScenarios(tier string, seed uint64, stride int) []lcScenario {
 			}
 		}
 	}
+	// the close of one socket is slow (blocking disconnecting handler on "/") while the other
+	// namespace of the same connection is still in its middleware / already connected
+	for _, tr := range []string{"polling", "websocket"} {
+		for _, ph := range []string{"slowclose", "slowidle"} {
+			for _, cause := range lcCausesAll {
+				add(lcScenario{Kind: "cause", Tr: tr, Phase: ph, Causes: []string{cause}, Nsps: 2, CutAt: -1})
+			}
+		}
+	}
 	// several causes at once (seeded subsets of size 2..4)
 	rnd := vk.NewRand(seed)
 	nMulti := 36
@@ -1004,6 +1075,7 @@ func lifecycleMain(args []string) error {
 	par := fs.Int("par", 48, "scenarios in flight")
 	only := fs.String("only", "", "JSON scenario to run alone (replay)")
 	list := fs.Bool("list", false, "print the scenarios only")
+	phase := fs.String("phase", "", "run only the scenarios of this phase (debugging)")
 	outp := fs.String("out", "-", "")
 	fs.Parse(args)
 	out, err := vk.NewOut(*outp)
@@ -1021,6 +1093,15 @@ func lifecycleMain(args []string) error {
 		scs = []lcScenario{s}
 	} else {
 		scs = lcScenarios(*tier, *seed, *stride)
+	}
+	if *phase != "" {
+		var sel []lcScenario
+		for _, s := range scs {
+			if s.Phase == *phase {
+				sel = append(sel, s)
+			}
+		}
+		scs = sel
 	}
 	if *list {
 		for _, s := range scs {
